@@ -4,7 +4,8 @@
 // Tried and dropped (DESIGN.md 10.9): a loop-free harness for the accuracy of Duration::to_seconds over every canonical
 // (i16, u64) -- error <= 4-8 ulp of max(|exact|, 1 s), exact zero, right sign, with the comparison arranged so that the
 // checker's own float arithmetic is exact (Sterbenz) -- did not finish in 40 min (cadical), nor restricted to centuries == 0
-// in 25 min; two float multiplications plus a 64-bit division by 1e9 are beyond CBMC's bit-blasting here.  The accuracy
+// in 25 min; even the weaker claim "finite, zero only for zero, negative only for negative, between the whole seconds below
+// and above" did not finish in 20 min: two float multiplications plus a 64-bit division by 1e9 are beyond CBMC's bit-blasting here.  The accuracy
 // clause is therefore decided only by the bounded stand-in duration_to_f64 (labelled bounded).
 use crate::Unit;
 
@@ -23,24 +24,4 @@ fn c18_unit_seconds_table() {
     assert!(u.from_seconds() == 1.0 / secs);
     kani::cover!(i == 8);
     kani::cover!(i == 0);
-}
-
-/// Sign clause of Duration::to_seconds ("with the correct sign"): for EVERY canonical duration the result is finite, zero
-/// exactly for the zero duration, negative exactly for negative durations, and lies between the whole seconds below and
-/// above the exact value (S <= r <= S + 1 with S = floor of the exact value; S and S + 1 are exact doubles).  Loop-free,
-/// complete.  (The few-ulp accuracy itself is beyond CBMC here, see above.)
-#[kani::proof]
-fn c18_to_seconds_sign_bracket() {
-    let c: i16 = kani::any();
-    let n: u64 = kani::any();
-    kani::assume(n < 3_155_760_000_000_000_000);
-    let d = crate::Duration { centuries: c, nanoseconds: n };
-    let r = d.to_seconds();
-    let s: i64 = c as i64 * 3_155_760_000 + (n / 1_000_000_000) as i64;
-    assert!(r.is_finite());
-    assert!((c == 0 && n == 0) == (r == 0.0));
-    assert!((c < 0) == (r < 0.0));
-    assert!(s as f64 <= r && r <= (s + 1) as f64);
-    kani::cover!(c == -1 && n == 3_155_759_999_999_999_999);
-    kani::cover!(c == 0 && n == 1);
 }
